@@ -14,6 +14,7 @@ import (
 	log "github.com/golang/glog"
 	"github.com/westerndigitalcorporation/blb/pkg/disk"
 	"github.com/westerndigitalcorporation/blb/pkg/raft/raft"
+	"github.com/westerndigitalcorporation/blb/pkg/verifhook"
 )
 
 // raftState is the state that Raft needs to maintain during its operation.
@@ -216,6 +217,7 @@ func (f *fsState) stateFromFile() (raftState, error) {
 func (f *fsState) stateToFile(state raftState) error {
 	// Create a temporary file to write the state. Note that we can safely
 	// truncate the file if it already exists.
+	verifhook.At("raftfs.state.write.begin", f.temp, f.stateFile)
 	temp, err := disk.NewChecksumFile(f.temp, os.O_CREATE|os.O_TRUNC|os.O_RDWR)
 	if nil != err {
 		log.Errorf("failed to create file %q: %s", f.temp, err)
@@ -239,10 +241,12 @@ func (f *fsState) stateToFile(state raftState) error {
 	}
 
 	// Rename the temporary file to replace the original state file.
+	verifhook.At("raftfs.state.write.closed", f.temp, f.stateFile)
 	if err := disk.Rename(f.temp, f.stateFile); nil != err {
 		log.Errorf("failed to rename file: %s", err)
 		return err
 	}
+	verifhook.At("raftfs.state.write.end", f.temp, f.stateFile)
 
 	return nil
 }
